@@ -48,6 +48,9 @@ def pool_json(g):
         M('T', ['a'], 'Type', docs.type_matcher(['a'], 'string', False), typ='string', eom=False),
         M('T', ['nope', 's', 'a'], 'Type', docs.type_matcher(['nope', 's', 'a'], 'string', False), typ='string', eom=False),
         M('C', ['s'], 'Custom', docs.custom_matcher('s', False, 'boom', False), ok=False, eom=False),
+        # a shared list of a dozen masks of which this document has none: a dozen failures, each one named
+        M('A', ['gone%d' % i for i in range(12)], 'Any', docs.any_matcher(['gone%d' % i for i in range(12)])),
+        M('T', ['o.gone%d' % i for i in range(11)] + ['a'], 'Type', docs.type_matcher(['o.gone%d' % i for i in range(11)] + ['a'], 'string'), typ='string'),
     ]
 
 
@@ -66,6 +69,7 @@ def pool_yaml(g):
         M('A', ['$.missing'], 'Any', docs.any_matcher(['$.missing'], None, False), eom=False),
         M('T', ['$.a'], 'Type', docs.type_matcher(['$.a'], 'string', False), typ='string', eom=False),
         M('C', ['$.s'], 'Custom', docs.custom_matcher('$.s', False, 'boom', False), ok=False, eom=False),
+        M('A', ['$.gone%d' % i for i in range(12)], 'Any', docs.any_matcher(['$.gone%d' % i for i in range(12)])),
     ]
 
 
